@@ -2507,11 +2507,18 @@ class Parameters:
                 watcher = self_._watch_group(obj, method, queued, group, attribute)
                 obj._param__private.dynamic_watchers[method].append(watcher)
                 installed.append(watcher)
+                for ddep, dep in group:
+                    # What is reached through the updated attribute goes to
+                    # the end, as it always did: a method depending on the
+                    # attribute itself runs before those depending on
+                    # something reached through it
+                    if ddep.spec.split(".")[0] == attribute:
+                        places.pop((id(dep.cls if dep.inst is None else dep.inst), dep.name, watcher.what), None)
 
             for watcher in installed:
-                # A watcher set up again takes the place of its predecessor
-                # among the watchers of a parameter (the order in which the
-                # methods of an object run does not change) ...
+                # Any other watcher set up again takes the place of its
+                # predecessor among the watchers of a parameter (the order in
+                # which the methods of an object run does not change) ...
                 wobj = watcher.cls if watcher.inst is None else watcher.inst
                 for pname in watcher.parameter_names:
                     place = places.get((id(wobj), pname, watcher.what))
